@@ -31,14 +31,17 @@ use {
         Tarjan,
         Vertices,
     },
-    std::collections::BTreeSet,
+    std::collections::{
+        BTreeMap,
+        BTreeSet,
+    },
 };
 
 /// Johnson's circuit-finding algorithm.
 #[derive(Clone, Debug, Eq, PartialEq)]
 pub struct Johnson75<'a, D> {
     a: &'a D,
-    b: Vec<BTreeSet<usize>>,
+    b: BTreeMap<usize, BTreeSet<usize>>,
     blocked: BTreeSet<usize>,
     stack: Vec<usize>,
 }
@@ -56,7 +59,7 @@ impl<'a, D> Johnson75<'a, D> {
     {
         Self {
             a,
-            b: vec![BTreeSet::new(); a.order()],
+            b: BTreeMap::new(),
             blocked: BTreeSet::new(),
             stack: Vec::new(),
         }
@@ -70,9 +73,9 @@ impl<'a, D> Johnson75<'a, D> {
     fn unblock(&mut self, u: usize) {
         if self.is_blocked(u) {
             let _ = self.blocked.remove(&u);
-            let b_ptr = self.b.as_mut_ptr();
-
-            while let Some(v) = unsafe { (*b_ptr.add(u)).pop_first() } {
+            while let Some(v) =
+                self.b.get_mut(&u).and_then(BTreeSet::pop_first)
+            {
                 self.unblock(v);
             }
         }
@@ -107,10 +110,8 @@ impl<'a, D> Johnson75<'a, D> {
         if f {
             self.unblock(v);
         } else {
-            let b_ptr = self.b.as_mut_ptr();
-
             for w in scc.out_neighbors(v) {
-                let _ = unsafe { (*b_ptr.add(w)).insert(v) };
+                let _ = self.b.entry(w).or_default().insert(v);
             }
         }
 
@@ -166,16 +167,12 @@ impl<'a, D> Johnson75<'a, D> {
 
                 if component.order() > 0 {
                     let &start = min_scc.iter().min().unwrap();
-                    let b_ptr = self.b.as_mut_ptr();
-
                     for vertex in component.vertices() {
                         let _ = self.blocked.remove(&vertex);
 
-                        unsafe {
-                            if let Some(b_set) = b_ptr.add(vertex).as_mut() {
-                                b_set.clear();
-                            }
-                        };
+                        if let Some(b_set) = self.b.get_mut(&vertex) {
+                            b_set.clear();
+                        }
                     }
 
                     let _ =
